@@ -36,12 +36,14 @@ Proof. repeat split; vm_compute; reflexivity. Qed.
 (* lifted definitions exist in the examples (the key lemma is exercised): share_<f>_<n> *)
 Lemma shared_example_lifts : (2 <= List.length (cpdefs (compiled_or_empty ex_shared)) - 2)%nat.
 Proof. vm_compute. repeat constructor. Qed.
-(* the guard is not implied by acceptance: the witnesses of the finding call-to-main and of the former finding
-   main-non-integer-result are outside.  The two witnesses of the former finding capture-under-binder (repaired in /repo
+(* the guard is not implied by acceptance of the checker before fix 5b8c76f: the witness of the former finding
+   main-non-integer-result is outside.  The witness of the former finding call-to-main (repaired in /repo by f929eb7; the
+   guard has no call-of-main exclusion any more) is INSIDE, and the conclusion of the theorem is evaluated on it.  The two witnesses of the former finding capture-under-binder (repaired in /repo
    by d5d4151; the guard has no capture clause any more) are INSIDE, although the syntactic detector
    [shadowing_risk_prog] fires on them, and the conclusion of the theorem is evaluated on them too. *)
 Lemma guard_on_witnesses :
-  prog_tyguard call_main_witness = false /\ prog_tyguard main_nonint_witness = false /\
+  (prog_tyguard call_main_witness = true /\ calls_main_prog call_main_witness = true /\ f2c_ok call_main_witness = true) /\
+  prog_tyguard main_nonint_witness = false /\
   (prog_tyguard capture_witness = true /\ shadowing_risk_prog capture_witness = true /\ f2c_ok capture_witness = true) /\
   (prog_tyguard WtDefs.capture_typing_witness = true /\ shadowing_risk_prog WtDefs.capture_typing_witness = true /\
    f2c_ok WtDefs.capture_typing_witness = true).
